@@ -7,6 +7,7 @@ package main
 import (
 	"fmt"
 	"go/types"
+	"hash/crc32"
 	"math/bits"
 	"strings"
 
@@ -377,8 +378,13 @@ func (in *Interp) crc32Update(crc *Term, tab Ptr, p Ptr, n int) Value {
 	polyT := c.Const(32, poly)
 	zero := c.Const(32, 0)
 	one := c.Const(32, 1)
-	crc = c.BvNot(crc)
 	bs := in.bytesOf(p, n)
+	if in.abstractCRC {
+		if r := in.crcAbstract(crc, uint32(poly), bs); r != nil {
+			return r
+		}
+	}
+	crc = c.BvNot(crc)
 	for _, b := range bs {
 		crc = c.BvXor(crc, c.Zext(b, 32))
 		for k := 0; k < 8; k++ {
@@ -649,4 +655,69 @@ func (in *Interp) errorsAs(err, target *IfaceV, depth int) bool {
 		depth++
 	}
 	return false
+}
+
+// crcAbstract models CRC-32 as an unknown function of the whole byte stream:
+// the checksum of a stream with symbolic bytes is one fresh 32-bit value per
+// distinct stream (however it is split over Update calls), concrete streams are
+// computed. Nothing but "equal streams have equal checksums" is assumed.
+type crcStream struct{ terms []*Term }
+
+func (in *Interp) crcAbstract(crc0 *Term, poly uint32, bs []*Term) *Term {
+	c := in.ctx
+	if in.crcStreams == nil {
+		in.crcStreams = map[*Term]*crcStream{}
+		in.crcMemo = map[string]*Term{}
+	}
+	var stream []*Term
+	if base, ok := in.crcStreams[crc0]; ok && !(crc0.IsConst() && crc0.val == 0) {
+		stream = append(stream, base.terms...)
+	} else if crc0.IsConst() {
+		if crc0.val != 0 {
+			stream = append(stream, crc0) // a 32-bit start value, told apart from bytes by its width
+		}
+	} else {
+		return nil // symbolic start value of unknown origin: fall back to the bitwise definition
+	}
+	stream = append(stream, bs...)
+	concrete := true
+	for _, t := range stream {
+		if !t.IsConst() {
+			concrete = false
+			break
+		}
+	}
+	if concrete {
+		start := uint32(0)
+		data := stream
+		if len(data) > 0 && data[0].w == 32 {
+			start = uint32(data[0].val)
+			data = data[1:]
+		}
+		raw := make([]byte, len(data))
+		for i, t := range data {
+			raw[i] = byte(t.val)
+		}
+		r := c.Const(32, uint64(crc32.Update(start, crc32.MakeTable(poly), raw)))
+		if _, ok := in.crcStreams[r]; !ok {
+			in.crcStreams[r] = &crcStream{stream}
+		}
+		return r
+	}
+	var sb strings.Builder
+	fmt.Fprintf(&sb, "%x", poly)
+	for _, t := range stream {
+		fmt.Fprintf(&sb, "|%p", t)
+	}
+	key := sb.String()
+	if t, ok := in.crcMemo[key]; ok {
+		return t
+	}
+	t := c.Var(fmt.Sprintf("crc32_%d", len(in.crcMemo)), 32)
+	in.crcMemo[key] = t
+	in.crcStreams[t] = &crcStream{stream}
+	if in.crcFixedWidth {
+		in.assumeTerm(c.Not(c.Eq(c.Extract(t, 31, 31), c.Extract(t, 30, 30))))
+	}
+	return t
 }
